@@ -16,17 +16,31 @@ RULE = ('every shipped Transformation constant (all enumerated) and random sets 
         'inputs {none, SPD, rank-1, rank-2, zero, diagonal, condition 1e8}.  conform7 judged against the exact rational formula '
         '(1 um); set then negated set returns the start within the stated caps (0.01 mm; 2 mm for AGD sets) / the exactly '
         'evaluated second-order residual for random sets; with vcv and uncertainties: a covariance is returned, symmetric, PSD, '
-        'equal to J Q J^T (1e-12 relative); without uncertainties: None.  3 % of the judged calls are preceded by calls the property does not speak about (strings, None, numbers or malformed covariance where a parameter set, a date or a 3x3 matrix is required; a Transformation plus a number): not judged, exceptions swallowed.  distinct = set x octant x radius decade x vcv kind')
+        'equal to J Q J^T (1e-12 relative); without uncertainties: None.  3 % of the judged calls are preceded by calls the property does not speak about (strings, None, numbers or malformed covariance where a parameter set, a date or a 3x3 matrix is required; a Transformation plus a number): not judged, exceptions swallowed.  in half of the shards the very first call of the process is made with whole-metre coordinates typed as int; expectations for shipped sets are built from the parameters as imported; every returned object that holds an array is kept with a copy and compared again after later calls (results are values: `earlier-result-changed-by-later-call`).  distinct = set x octant x radius decade x vcv kind')
 ASSUMPTIONS = ['helmert_exact rational evaluation (self-validated against mpmath and finite differences each shard)',
                'sign convention of the Australian technical manuals as written in the property statement: R = [[1,rz,-ry],[-rz,1,rx],[ry,-rx,1]]']
 N = {'quick': 1800, 'thorough': 30000}
 SHARDS = {'quick': 16, 'thorough': 32}
-REQUIRED_COUNTERS = ['unjudged_calls_before_a_judged_one', 'same_label_sequences', 'shipped_sets_calls', 'random_sets_calls', 'vcv_judged', 'vcv_none_judged', 'roundtrip_judged']
+REQUIRED_COUNTERS = ['first_call_of_process_with_int_coordinates', 'kept_results_compared_after_later_calls', 'unjudged_calls_before_a_judged_one', 'same_label_sequences', 'shipped_sets_calls', 'random_sets_calls', 'vcv_judged', 'vcv_none_judged', 'roundtrip_judged']
 VCV_KINDS = ['none', 'spd', 'rank1', 'rank2', 'zero', 'diag', 'cond1e8']
 
 
 def plan(tier, seed):
     return [{'n': N[tier], 'nshards': SHARDS[tier]} for _ in range(SHARDS[tier])]
+
+
+AS_IMPORTED = {}
+
+
+def as_imported(ns, name):
+    """The 14 parameters and the reference epoch a shipped constant had when the modules were loaded (taken before the
+    first library call of the shard): expectations for shipped sets are built from these, so that a constant a library call
+    has quietly rewritten shows as a wrong result instead of rewriting the expectation with it."""
+    import types
+    if not AS_IMPORTED:
+        for k, t in catalogue(ns).items():
+            AS_IMPORTED[k] = types.SimpleNamespace(ref_epoch=t.ref_epoch, **{q: getattr(t, q) for q in hx.P14})
+    return AS_IMPORTED[name]
 
 
 def catalogue(ns):
@@ -43,6 +57,8 @@ def rand_point(rnd, rmax=5e7):
         p = [rnd.choice([-1, 1]) * rnd.uniform(0, rmax) for _ in range(3)]
     if rnd.random() < 0.05:
         p[rnd.randrange(3)] = 0.0
+    if rnd.random() < 0.08:
+        p = [int(round(c)) for c in p]          # whole metres typed as int (a rounded catalogue position)
     return p
 
 
@@ -134,6 +150,9 @@ def run_unjudged(ns, ctx, case, t):
             core.unjudged(ctx, getattr(ns.transform, name), *args)
 
 
+KEEPER = {}
+
+
 def judge(ns, ctx, case):
     C = ns.constants
     T = ns.transform
@@ -142,15 +161,20 @@ def judge(ns, ctx, case):
     run_unjudged(ns, ctx, case, t)
     x, y, z = case['xyz']
     V = None if case.get('vcv') is None else np.array(case['vcv'], dtype=float)
-    p = hx.params_at(t)
+    p = hx.params_at(as_imported(ns, case['set']) if shipped else t)
     ctx.judged()
     ctx.count('shipped_sets_calls' if shipped else 'random_sets_calls')
     octant = ''.join('+' if c >= 0 else '-' for c in (x, y, z))
     rad = math.sqrt(x * x + y * y + z * z)
     ctx.bucket(case['set'] if shipped else 'random', octant, int(math.log10(rad)) if rad >= 1 else 0, case.get('vkind', 'none'))
     Vin = None if V is None else V.copy()
+    keeper = KEEPER.get(id(ctx))
+    if keeper is None:
+        keeper = KEEPER[id(ctx)] = core.ResultKeeper(ctx, 'conform7')
+    keeper.verify()
     try:
         r = T.conform7(x, y, z, t, V) if V is not None else T.conform7(x, y, z, t)
+        keeper.keep(r, dict(case, note='value kept from an earlier call of the sequence'))
     except Exception as e:
         mech = 'conform7:exception-with-covariance' if V is not None else 'conform7:exception'
         ctx.violation(mech, case, {'exception': repr(e)})
@@ -208,6 +232,7 @@ def judge(ns, ctx, case):
 
 def run_shard(spec, ctx):
     ns = core.load_repo()
+    as_imported(ns, next(iter(catalogue(ns))))
     try:
         ctx.info['oracle_selfcheck'] = {k: float('%.3g' % v) for k, v in hx.self_check().items()}
     except AssertionError as e:
@@ -242,6 +267,10 @@ def run_shard(spec, ctx):
             kind = VCV_KINDS[i % len(VCV_KINDS)] if has_sd or i % 3 == 0 else 'none'
             V = rand_vcv(rnd, kind)
             case = {'set': name, 'xyz': rand_point(rnd), 'vcv': None if V is None else V.tolist(), 'vkind': kind}
+            if n == 0 and spec['shard'] % 2 == 1:
+                # the very first call of this process is made with whole-metre coordinates typed as int
+                case['xyz'] = [int(round(c)) for c in case['xyz']]
+                ctx.count('first_call_of_process_with_int_coordinates')
             if n < 2:
                 ctx.sample({k: v for k, v in case.items()})
             n += 1
